@@ -5,7 +5,7 @@
    ReceiveBufSize; the handshake guarantees ReceiveBufSize >= 8192).  Decoding of the merged body (ua.DecodeService) is C02.
    Three statements: no panic (full), progress (by construction: one structurally recursive step per frame),
    bounded memory (refuted: known finding chunk-table-request-ids-unbounded; partial: per request id) and
-   never blocks forever (refuted: known finding rcvlocker-wedge). *)
+   never blocks forever (holds since the dispatcher hand-off was repaired). *)
 From Coq Require Import NArith ZArith List Bool Lia.
 From Opcua Require Import Model.RecvBase Model.RecvCrypto Model.RecvMerge Model.RecvChan Model.RecvFrame
   Proofs.RecvBaseProofs Proofs.RecvCryptoProofs Proofs.RecvMergeProofs Proofs.RecvFrameProofs.
@@ -78,19 +78,19 @@ Proof.
   specialize (Hb Hr). rewrite map_length in Hb. unfold flood in Hb. rewrite map_length, seq_length in Hb. lia.
 Qed.
 
-(* Blocking: a delivered OpenSecureChannelResponse whose request id has a handler makes the dispatcher wait for open()
-   to return; when no open() is in flight nothing ever wakes it. *)
-Definition C13_never_blocks_statement : Prop := forall s m, disp_step s m <> None.
-Theorem C13_refuted_rcvlocker_wedge : ~ C13_never_blocks_statement.
-Proof. intro H. apply (H {| d_handlers := [5]; d_locked := false; d_open_in_flight := false |} (DMsg 5 true)). reflexivity. Qed.
-
-(* what holds: a message that is not an unsolicited OpenSecureChannelResponse for a pending request never blocks *)
-Theorem C13_partial_dispatch : forall s req osc,
-  (osc = false \/ d_open_in_flight s = true \/ existsb (N.eqb req) (d_handlers s) = false) -> disp_step s (DMsg req osc) <> None.
+(* Blocking: after the repair of the dispatcher / open() hand-off (fixed: see known_findings.txt) no delivered message,
+   solicited or not, whatever its request id and type, in any dispatcher state, makes the dispatcher wait for ever. *)
+Theorem C13_dispatch_never_blocks : forall s m, disp_step true s m <> None.
 Proof.
-  intros s req osc H. unfold disp_step. destruct (existsb (N.eqb req) (d_handlers s)) eqn:E; [|discriminate].
-  destruct osc; [|discriminate]. destruct (d_open_in_flight s); [discriminate|]. destruct H as [H|[H|H]]; discriminate.
+  intros s [req osc]. unfold disp_step. destruct (existsb (N.eqb req) (d_handlers s)); [|discriminate].
+  destruct (d_opening s) as [r|]; [destruct (osc && negb (req =? 0) && (r =? req)); discriminate|].
+  rewrite andb_false_r. discriminate.
 Qed.
+
+(* before the repair an unsolicited OpenSecureChannelResponse whose request id had a handler stopped the channel *)
+Definition never_blocks_before_fix : Prop := forall s m, disp_step false s m <> None.
+Theorem C13_refuted_rcvlocker_wedge_before_fix : ~ never_blocks_before_fix.
+Proof. intro H. apply (H {| d_handlers := [5]; d_opening := None |} (DMsg 5 true)). reflexivity. Qed.
 
 (* The defects that were repaired (fixed: see known_findings.txt): before the guards a short secured chunk (C09) and an
    OPN chunk under policy None on a secured channel whose opening instance has no algorithm yet panicked. *)
@@ -125,6 +125,6 @@ Print Assumptions C13_no_panic.
 Print Assumptions C13_progress.
 Print Assumptions C13_partial_per_request_id.
 Print Assumptions C13_refuted_request_ids_unbounded.
-Print Assumptions C13_refuted_rcvlocker_wedge.
-Print Assumptions C13_partial_dispatch.
+Print Assumptions C13_dispatch_never_blocks.
+Print Assumptions C13_refuted_rcvlocker_wedge_before_fix.
 Print Assumptions C13_prefix_refuted.
